@@ -1,6 +1,8 @@
 //! Sample encodings shared by the three drivers: integers as limb records, floats as IEEE
 //! fields.  A *sample spec* in a stimulus is either a small JSON integer n (i16: the value n,
-//! floats: n / 2^15, exact) or an already encoded value.
+//! floats: n / 2^15, exact; i32: n * 2^20 + an odd 20-bit pattern derived from n, i.e. a value
+//! near full scale for |n| ~ 2000 whose significand needs more than the 24 bits of an f32) or an
+//! already encoded value.  The trace always carries the value that was actually used.
 use dasp_frame::Frame;
 use dasp_sample::Sample;
 use hx_common::*;
@@ -70,6 +72,33 @@ impl Enc for i16 {
         }
     }
     fn plus(self, o: i16) -> i16 {
+        self + o
+    }
+}
+
+impl Enc for i32 {
+    const FMT: &'static str = "i32";
+    fn enc(self) -> Value {
+        big(self as i128)
+    }
+    fn dec(v: &Value) -> i32 {
+        match v.as_i64() {
+            Some(n) => {
+                // |n| < 2047: n * 2^20 plus odd low bits (all 31 value bits in use)
+                let low = ((n.wrapping_mul(0x9E37_79B1) >> 7) & 0xF_FFFF) | 1;
+                (n.clamp(-2046, 2046) * (1 << 20) + low) as i32
+            }
+            None => unbig(v) as i32,
+        }
+    }
+    fn scale2(self, k: i32) -> i32 {
+        if k >= 0 {
+            self << k
+        } else {
+            self >> (-k)
+        }
+    }
+    fn plus(self, o: i32) -> i32 {
         self + o
     }
 }
